@@ -291,6 +291,11 @@ func c16CheckDataURI(t *fw.T, mt, params string, b64 bool, payload, encoded []by
 	head := "data:" + mt + params
 	if b64 {
 		head += ";base64"
+		if params != "" && t.Rng.Intn(3) == 0 {
+			// the base64 marker is not the last item: the parameters behind it still belong to the media type
+			head = "data:" + mt + ";base64" + params
+			t.Count("datauri.base64.not_last", 1)
+		}
 	}
 	head += ","
 	uri := append([]byte(head), encoded...)
